@@ -401,3 +401,30 @@ func FromLib(p *lorawan.PHYPayload) (*ref.Frame, error) {
 
 // LibKey converts a model key.
 func LibKey(k ref.Key) lorawan.AES128Key { return lorawan.AES128Key(k) }
+
+// Receive decodes wire the way a receive loop does. loop == false: into a fresh PHYPayload. loop == true: ONE
+// PHYPayload variable decodes wire, the result is kept by value (as a receive queue does with `append(q, phy)`),
+// and the same variable then decodes a second frame of the same message type (wire with every byte but the ones
+// that select the layout - MHDR, FCtrl of data frames, the type octet of rejoin-requests - complemented; its outcome
+// does not matter). The kept value is returned: it has to be the frame that wire stands for.
+func Receive(wire []byte, loop bool) (lorawan.PHYPayload, error) {
+	var v lorawan.PHYPayload
+	if err := v.UnmarshalBinary(append([]byte{}, wire...)); err != nil || !loop {
+		return v, err
+	}
+	kept := v
+	_ = v.UnmarshalBinary(Decoy(wire))
+	return kept, nil
+}
+
+// Decoy: see Receive.
+func Decoy(wire []byte) []byte {
+	d := append([]byte{}, wire...)
+	for i := 1; i < len(d); i++ {
+		if i == 5 && ref.IsData(d[0]>>5) || i == 1 && d[0]>>5 == ref.MTRejoin {
+			continue
+		}
+		d[i] ^= 0xa5
+	}
+	return d
+}
